@@ -232,6 +232,18 @@ def correct_mag(ctx, eqs, rng, N):
     decl = rng.uniform(-0.5, 0.5, N)
     incl = rng.uniform(-1.2, 1.2, N)
     incl[k:2 * k] = rng.choice([-1.0, 1.0], k) * (PI / 2 - O.loguniform(rng, 1e-4, 0.3, k))  # near-vertical field in nav frame
+    # directed: attitudes whose *estimated* horizontal field direction lies within delta of the body z axis -- the
+    # "too close to vertical" gate (std_rot/2 > sin(delta)) from both sides, incl. a thin shell just outside it
+    kk = N // 6
+    nrt = np.einsum("nij,j->ni", O.Rz(decl[2 * k:2 * k + kk]), np.array([1.0, 0, 0]))  # horizontal north rotated by the declination
+    z = np.array([0, 0, 1.0])
+    vx = np.cross(np.tile(z, (kk, 1)), nrt)
+    ang0 = np.arccos(np.clip(nrt @ z, -1, 1))
+    R_align = O.rodrigues(vx / np.maximum(np.linalg.norm(vx, axis=1, keepdims=True), 1e-300) * ang0[:, None])  # R_align e3 = north
+    delta = rng.choice([0.0, 1e-4, 1e-3, 3e-3, 5e-3, 8e-3, 1.2e-2, 2e-2, 5e-2, 0.2], kk) * rng.uniform(0.8, 1.25, kk)
+    tilt_axis = np.stack([np.cos(rng.uniform(0, 2 * PI, kk)), np.sin(rng.uniform(0, 2 * PI, kk)), np.zeros(kk)], axis=1)
+    Rn_ = R_align @ O.rodrigues(tilt_axis * delta[:, None]) @ O.Rz(rng.uniform(-PI, PI, kk))
+    x[2 * k:2 * k + kk, :3] = SO3S["mrp"].from_R(Rn_, rng, canonical=True)
     R = O.mrp_to_R(x[:, :3])
     y = np.einsum("nji,nj->ni", R, B_n(decl, incl, np.full(N, 0.1)))
     yerr = O.random_axes(rng, N) * O.loguniform(rng, 1e-4, 0.3, N)[:, None]
